@@ -18,6 +18,7 @@ import (
 
 	clienttypes "github.com/teleport-network/teleport/x/xibc/core/client/types"
 	commitmenttypes "github.com/teleport-network/teleport/x/xibc/core/commitment/types"
+	"github.com/teleport-network/teleport/x/xibc/core/host"
 	"github.com/teleport-network/teleport/x/xibc/exported"
 )
 
@@ -59,7 +60,7 @@ func (cs ClientState) checkInitialConsensusState(state exported.ConsensusState) 
 	if !ok {
 		return sdkerrors.Wrapf(clienttypes.ErrInvalidConsensus, "invalid consensus state type %T, expected %T", state, &ConsensusState{})
 	}
-	if !bytes.Equal(consState.Root, cs.Header.ToEthHeader().Root.Bytes()) || !consState.Height.EQ(cs.Header.Height) {
+	if !bytes.Equal(consState.Root, cs.Header.ToEthHeader().Root.Bytes()) || !consState.Height.EQ(cs.Header.Height) || consState.Timestamp != cs.Header.Time {
 		return sdkerrors.Wrap(clienttypes.ErrInvalidConsensus, "consensus state is not the one of the client's header")
 	}
 	return nil
@@ -92,6 +93,19 @@ func (cs ClientState) UpgradeState(
 ) error {
 	if err := cs.checkInitialConsensusState(state); err != nil {
 		return err
+	}
+	// headers and state roots are indexed by block number only: a block that is already stored must
+	// not be filed again under another revision number (pruning the first record would orphan the second)
+	if bz := store.Get(host.ClientStateKey()); bz != nil {
+		if stored, err := clienttypes.UnmarshalClientState(cdc, bz); err == nil {
+			if stored.GetLatestHeight().GetRevisionNumber() != cs.Header.Height.RevisionNumber {
+				return sdkerrors.Wrapf(
+					clienttypes.ErrUpgradeClient,
+					"revision number %d differs from the client's revision number %d",
+					cs.Header.Height.RevisionNumber, stored.GetLatestHeight().GetRevisionNumber(),
+				)
+			}
+		}
 	}
 	header := cs.Header
 	headerBytes, err := cdc.MarshalInterface(&header)
